@@ -32,7 +32,7 @@ class Template:
 
 def gen_condition(t, r, kinds=None):
     kind = r.choice(kinds or ["header", "header", "header-list", "nothdr", "exists", "notexists", "size", "size-int", "envelope", "address", "body", "currentdate", "currentdate-value", "true", "false"])
-    mt = r.choice([":is", ":contains", ":matches"])
+    mt = r.choice([":is", ":contains", ":matches", ":is", ":contains", ":matches", ":regex"])     # :regex brings an extension of its own
     if kind == "header":
         return (t.hole(), mt, t.hole())
     if kind == "header-list":
